@@ -394,37 +394,158 @@ Proof.
     rewrite H2 in Hd. discriminate.
 Qed.
 
-Theorem cli_fail_iff_error : forall args tr1 tr2,
-  disciplined tr1 = true -> disciplined tr2 = true ->
-  let c := cli_run args tr1 tr2 in
-  let err := has_error (reports_of (executed tr1)) ||
-             (negb (has_error (reports_of (executed tr1))) && has_error (reports_of (executed tr2))) in
-  (c_status c <> 0%Z <-> err = true) /\
-  (c_status c = 0%Z \/ c_status c = 1%Z) /\
-  c_outputs_written c = negb err.
+(* ---- the second block: Compiler.emit_files *)
+Definition make_ok (w : make_write) : bool := match w with WOk => true | _ => false end.
+Definition make_crash (w : make_write) : bool := match w with WCrash => true | _ => false end.
+
+Lemma emit_trace_ok : forall ws, forallb make_ok ws = true -> emit_trace ws = [Return].
 Proof.
-  intros args tr1 tr2 D1 D2. unfold cli_run.
-  destruct (block_status (warning_control_of args) tr1 D1) as [[L E]|[L E]]; rewrite L, E; cbv iota.
-  - destruct (block_status (warning_control_of args) tr2 D2) as [[L2 E2]|[L2 E2]]; rewrite L2, E2; cbn.
-    + split; [split; [intros H; exfalso; apply H; reflexivity|discriminate]|split; [left; reflexivity|reflexivity]].
-    + split; [split; [reflexivity|discriminate]|split; [right; reflexivity|reflexivity]].
-  - cbn. split; [split; [reflexivity|discriminate]|split; [right; reflexivity|reflexivity]].
+  induction ws as [|w r IH]; simpl; intros H; [reflexivity|].
+  destruct w; simpl in H; try discriminate. apply IH. exact H.
 Qed.
 
-(* whatever the bodies do (any exception, any warning control): the code after the two blocks --
-   the only place where -o output and listing are written -- is reached only if no error-severity
-   report was executed in either block, and then the status is 0 *)
-Theorem cli_outputs_only_without_errors : forall args tr1 tr2,
-  c_outputs_written (cli_run args tr1 tr2) = true ->
-  has_error (reports_of (executed tr1)) = false /\ has_error (reports_of (executed tr2)) = false /\
-  c_status (cli_run args tr1 tr2) = 0%Z.
+Lemma emit_written_ok : forall ws i, forallb make_ok ws = true -> emit_written i ws = seq i (length ws).
 Proof.
-  intros args tr1 tr2. unfold cli_run.
-  assert (K : forall wc tr, r_leave (run_with wc tr) = LNormal -> has_error (reports_of (executed tr)) = false).
-  { intros wc tr H. unfold run_with, run_with_sw in H. cbn [r_leave] in H. rewrite body_latch in H.
-    destruct (has_error (reports_of (executed tr))); [|reflexivity].
-    exfalso. destruct (b_exc (run_body wc tr)) as [e|]; [destruct e|]; cbn in H; discriminate. }
-  destruct (r_leave (run_with (warning_control_of args) tr1)) eqn:L1; [|cbn; discriminate].
-  destruct (r_leave (run_with (warning_control_of args) tr2)) eqn:L2; [|cbn; discriminate].
-  cbn. intros _. repeat split; eauto.
+  induction ws as [|w r IH]; simpl; intros i H; [reflexivity|].
+  destruct w; simpl in H; try discriminate. rewrite IH by exact H. reflexivity.
+Qed.
+
+Lemma emit_exc : forall ws, trace_exc (emit_trace ws) = None \/ trace_exc (emit_trace ws) = Some (EOther 2).
+Proof.
+  induction ws as [|w r IH]; simpl; [left; reflexivity|].
+  destruct w; simpl; auto.
+Qed.
+
+(* latch of the second block: a write failure was reported before any crash *)
+Definition emit_reported (ws : list make_write) : bool := has_error (reports_of (executed (emit_trace ws))).
+
+Lemma emit_not_ok : forall ws, forallb make_ok ws = false ->
+  emit_reported ws = true \/ trace_exc (emit_trace ws) = Some (EOther 2).
+Proof.
+  unfold emit_reported. induction ws as [|w r IH]; simpl; intros H; [discriminate|].
+  destruct w; simpl in *; auto.
+Qed.
+
+Lemma emit_reported_not_ok : forall ws, emit_reported ws = true -> forallb make_ok ws = false.
+Proof.
+  intros ws H. destruct (forallb make_ok ws) eqn:E; [|reflexivity].
+  unfold emit_reported in H. rewrite (emit_trace_ok ws E) in H. discriminate.
+Qed.
+
+Lemma block2_ok : forall wc ws, forallb make_ok ws = true ->
+  r_leave (run_with wc (emit_trace ws)) = LNormal /\ r_latch (run_with wc (emit_trace ws)) = false /\
+  r_delivered (run_with wc (emit_trace ws)) = [].
+Proof. intros wc ws H. rewrite (emit_trace_ok ws H). repeat split; reflexivity. Qed.
+
+Lemma block2_fails : forall wc ws, forallb make_ok ws = false ->
+  exists e, r_leave (run_with wc (emit_trace ws)) = LRaise e /\ cli_status_of (LRaise e) = 1%Z /\
+  r_latch (run_with wc (emit_trace ws)) = emit_reported ws.
+Proof.
+  intros wc ws H. unfold run_with, run_with_sw, emit_reported. cbn [r_leave r_latch].
+  rewrite body_exc, body_latch.
+  destruct (emit_not_ok ws H) as [L|X].
+  - unfold emit_reported in L. rewrite L. destruct (emit_exc ws) as [E|E]; rewrite E.
+    + exists EUnrecoverable. repeat split; reflexivity.
+    + exists (EOther 2). repeat split; reflexivity.
+  - rewrite X. destruct (has_error (reports_of (executed (emit_trace ws)))); exists (EOther 2); repeat split; reflexivity.
+Qed.
+
+(* ---- main_cli with its writes *)
+Definition err1 (tr1 : list event) : bool := has_error (reports_of (executed tr1)).
+Definition make_fails (env : cli_env) : bool := negb (forallb make_ok (e_make env)).
+Definition post_fails (env : cli_env) : bool :=
+  match e_out env with
+  | PFail | PCrash => true
+  | _ => match e_lst env with PFail | PCrash => true | _ => false end
+  end.
+(* every way in which the run ends with a non-zero status *)
+Definition cli_fails (tr1 : list event) (env : cli_env) : bool :=
+  e_pre_fail env || err1 tr1 || make_fails env || post_fails env.
+(* ... and those among them that issue no error-severity report *)
+Definition silent_failure (tr1 : list event) (env : cli_env) : bool :=
+  e_pre_fail env ||
+  (negb (err1 tr1) && (existsb make_crash (e_make env) || (forallb make_ok (e_make env) && post_fails env))).
+(* everything that was asked for *)
+Definition requested (env : cli_env) : list nat :=
+  seq 0 (length (e_make env)) ++ (match e_out env with POk => [length (e_make env)] | _ => [] end)
+  ++ (match e_lst env with POk => [S (length (e_make env))] | _ => [] end).
+
+Lemma crash_not_ok : forall ws, existsb make_crash ws = true -> forallb make_ok ws = false.
+Proof.
+  induction ws as [|w r IH]; simpl; intros H; [discriminate|].
+  destruct w; simpl in *; auto.
+Qed.
+
+Lemma not_ok_reported_or_crash : forall ws, forallb make_ok ws = false -> emit_reported ws = true \/ existsb make_crash ws = true.
+Proof.
+  unfold emit_reported. induction ws as [|w r IH]; simpl; intros H; [discriminate|].
+  destruct w; simpl in *; auto.
+Qed.
+
+Lemma crash_not_ok_contra : forall ws, forallb make_ok ws = true -> existsb make_crash ws = false.
+Proof.
+  intros ws H. destruct (existsb make_crash ws) eqn:E; [|reflexivity].
+  apply crash_not_ok in E. congruence.
+Qed.
+
+Theorem cli_status : forall args tr1 env, disciplined tr1 = true ->
+  let c := cli_run args tr1 env in
+  (c_status c <> 0%Z <-> cli_fails tr1 env = true) /\
+  (c_status c = 0%Z \/ c_status c = 1%Z) /\
+  (c_error_reported c = true -> c_status c <> 0%Z) /\
+  (c_status c <> 0%Z <-> c_error_reported c = true \/ silent_failure tr1 env = true).
+Proof.
+  intros args tr1 env D. unfold cli_run, cli_fails, silent_failure, make_fails, post_fails, err1. cbv zeta.
+  destruct (e_pre_fail env); cbn [orb].
+  { cbn. repeat split; auto; try discriminate. }
+  destruct (block_status (warning_control_of args) tr1 D) as [[L E]|[L E]]; rewrite L, E; cbv iota; cbn [orb negb andb].
+  2: { assert (B : r_latch (run_with (warning_control_of args) tr1) = true).
+       { unfold run_with, run_with_sw. cbn [r_latch]. rewrite body_latch. exact E. }
+       rewrite B. cbn. repeat split; auto; try discriminate. }
+  assert (B : r_latch (run_with (warning_control_of args) tr1) = false).
+  { unfold run_with, run_with_sw. cbn [r_latch]. rewrite body_latch. exact E. }
+  rewrite B. cbn [orb].
+  destruct (forallb make_ok (e_make env)) eqn:M; cbn [negb orb andb].
+  - destruct (block2_ok (warning_control_of args) (e_make env) M) as [L2 [T2 _]]. rewrite L2, T2.
+    rewrite (crash_not_ok_contra (e_make env) M).
+    destruct (e_out env); destruct (e_lst env); cbn;
+      repeat split; auto; try discriminate; try (intros [H|H]; discriminate); try (intros H; exfalso; apply H; reflexivity).
+  - destruct (block2_fails (warning_control_of args) (e_make env) M) as [e [L2 [S2 T2]]]. rewrite L2, T2.
+    assert (S2' : cli_status_of (LRaise e) <> 0%Z) by (rewrite S2; discriminate).
+    destruct (not_ok_reported_or_crash (e_make env) M) as [R|R]; rewrite ?R.
+    + cbn [c_status c_error_reported]. repeat split; auto; try (rewrite S2; right; reflexivity).
+    + cbn [c_status c_error_reported]. rewrite ?R. repeat split; auto; try (rewrite S2; right; reflexivity);
+        try (intros _; right; reflexivity).
+Qed.
+
+(* a failure of the assembly proper (or before it) leaves nothing behind *)
+Theorem cli_no_files_when_assembly_fails : forall args tr1 env, disciplined tr1 = true ->
+  e_pre_fail env = true \/ err1 tr1 = true ->
+  c_written (cli_run args tr1 env) = [] /\ c_status (cli_run args tr1 env) <> 0%Z.
+Proof.
+  intros args tr1 env D H. unfold cli_run, err1 in *. cbv zeta.
+  destruct (e_pre_fail env); [split; [reflexivity|discriminate]|].
+  destruct H as [H|H]; [discriminate|].
+  destruct (block_status (warning_control_of args) tr1 D) as [[L E]|[L E]]; [congruence|].
+  rewrite L. split; [reflexivity|discriminate].
+Qed.
+
+(* a run that ends with status 0 reported no error and wrote everything that was asked for *)
+Theorem cli_success_writes_all : forall args tr1 env, disciplined tr1 = true ->
+  c_status (cli_run args tr1 env) = 0%Z ->
+  c_written (cli_run args tr1 env) = requested env /\ c_error_reported (cli_run args tr1 env) = false /\ err1 tr1 = false.
+Proof.
+  intros args tr1 env D. unfold cli_run, requested, err1. cbv zeta.
+  destruct (e_pre_fail env); [discriminate|].
+  destruct (block_status (warning_control_of args) tr1 D) as [[L E]|[L E]]; rewrite L; cbv iota; [|discriminate].
+  assert (B : r_latch (run_with (warning_control_of args) tr1) = false).
+  { unfold run_with, run_with_sw. cbn [r_latch]. rewrite body_latch. exact E. }
+  rewrite B.
+  destruct (forallb make_ok (e_make env)) eqn:M.
+  - destruct (block2_ok (warning_control_of args) (e_make env) M) as [L2 [T2 _]]. rewrite L2, T2.
+    rewrite (emit_written_ok _ 0 M).
+    destruct (e_out env); destruct (e_lst env); cbn; intros H; try discriminate;
+      rewrite ?app_nil_r, <- ?app_assoc; repeat split; auto.
+  - destruct (block2_fails (warning_control_of args) (e_make env) M) as [e [L2 [S2 _]]]. rewrite L2.
+    cbn [c_status]. rewrite S2. discriminate.
 Qed.
